@@ -54,11 +54,14 @@ package ckks
 
 // ---- no residue in the output of a scalar operation (property C09): the output element has exactly
 // ---- the degree of the input, whatever degree it had before ----
+// `safety index`: a real scalar is scaled by as many moduli as one rescaling consumes; with two per rescaling there
+// may be fewer levels left than that: an error, not an index below zero (finding F84)
 //@ afunc Evaluator.Mul#scalar
 //@   property C09 C06
 //@   dyn op1 float64
 //@   nilable
-//@   requires len(op0.Value) >= 1 && len(op0.Value) <= 3
+//@   safety index
+//@   requires len(op0.Value) >= 1 && len(op0.Value) <= 3 && len(opOut.Value) >= 1
 //@   ensures implies(isnil(err), len(opOut.Value) == len(op0.Value))
 
 //@ afunc bigComplexToRNSScalar
